@@ -24,7 +24,8 @@ ASSUMPTIONS = [
     "reference RTS smoother in mpmath over the recorded filtering marginals (the filter itself is C02's subject)",
     "the interpolation scale of a sub-interval is the scale of the step that covers it (documented convention)",
 ]
-REQUIRED_OBS = {"marginals_compared": 60, "cross_covariances_compared": 30, "last_step_at_t1": 3, "last_step_beyond_t1": 2}
+REQUIRED_OBS = {"marginals_compared": 60, "cross_covariances_compared": 30, "last_step_at_t1": 3, "last_step_beyond_t1": 2,
+                "layout_three_inside_one_step": 0}
 TOL = 1e-7
 TIMEOUT = {"quick": 1500, "thorough": 3500}
 
@@ -307,8 +308,29 @@ def run_case(case):
                     sol = solve(cfg["prior"], t0, T1, atol=case["tol"], rtol=case["tol"], dt0=case["dt0"], damp=case["damp"])
             else:
                 r = np.random.default_rng(case["seedc"])
-                save_at = sorted({t0, T1} | {float(x) for x in t0 + case["T"] * r.uniform(0.05, 0.95, size=case["n_ckpt"])})
-                solve = ivpsolve.solve_adaptive_save_at(solver=rec, error=rerr, clip_dt=bool(case["seedc"] % 2),
+                clip = bool(case["seedc"] % 2)
+                # two-pass construction: record the natural step ends first, then force the layouts that matter:
+                # several checkpoints inside one step, a checkpoint exactly at a step end, plus random ones
+                log0 = record.Log()
+                rec0 = record.RecSolver(log0, cfg["solver"], keep_states=True)
+                solve0 = ivpsolve.solve_adaptive_save_at(solver=rec0, error=record.RecError(log0, cfg["error"]), clip_dt=False,
+                                                         while_loop=record.make_while(log0, max_iter=200))
+                with jax.disable_jit():
+                    solve0(cfg["prior"], jnp.asarray([t0, T1]), atol=case["tol"], rtol=case["tol"], dt0=case["dt0"], damp=case["damp"])
+                ends = [float(s.t) for s in _accepted_states(log0, rec0)]
+                pts = {t0, T1} | {float(x) for x in t0 + case["T"] * r.uniform(0.05, 0.95, size=case["n_ckpt"])}
+                inner = [(a, b) for a, b in zip(ends[:-1], ends[1:]) if b < T1]
+                layout = []
+                if inner:
+                    a, b = inner[int(r.integers(0, len(inner)))]
+                    pts |= {float(a + (b - a) * f) for f in (0.25, 0.5, 0.8)}
+                    layout.append("three_inside_one_step")
+                    if r.random() < 0.6:
+                        pts.add(float(inner[int(r.integers(0, len(inner)))][1]))
+                        layout.append("at_step_end")
+                obs["layout_" + "+".join(layout or ["random"])] = 1
+                save_at = sorted(pts)
+                solve = ivpsolve.solve_adaptive_save_at(solver=rec, error=rerr, clip_dt=clip,
                                                         while_loop=record.make_while(log, max_iter=200))
                 with jax.disable_jit():
                     sol = solve(cfg["prior"], jnp.asarray(save_at), atol=case["tol"], rtol=case["tol"], dt0=case["dt0"], damp=case["damp"])
